@@ -120,6 +120,115 @@ def run_streams(ctx, pid, nsteps, nstreams):
     return findings
 
 
+# ------------------------------------------------------------------ shrinking of a failing request line
+def _parse(line):
+    """tokens -> list of segments: ('t', token) or ('r', kind, [x1,y1,x2,y2], [[..4..], ...])"""
+    t = line.split()
+    segs, i = [], 0
+    while i < len(t):
+        if t[i] in ("S", "E", "B", "H") and i + 5 < len(t) + 0 and all(re.fullmatch(r"-?\d+", x) for x in t[i + 1:i + 6]):
+            n = int(t[i + 5])
+            if i + 6 + 4 * n <= len(t):
+                ext = [int(x) for x in t[i + 1:i + 5]]
+                boxes = [[int(x) for x in t[i + 6 + 4 * k:i + 10 + 4 * k]] for k in range(n)]
+                segs.append(["r", t[i], ext, boxes])
+                i += 6 + 4 * n
+                continue
+        segs.append(["t", t[i]])
+        i += 1
+    return segs
+
+
+def _fmt(segs):
+    out = []
+    for s in segs:
+        if s[0] == "t":
+            out.append(s[1])
+        else:
+            out += [s[1]] + [str(v) for v in s[2]] + [str(len(s[3]))] + [str(v) for b in s[3] for v in b]
+    return " ".join(out)
+
+
+def _bbox(boxes):
+    return [min(b[0] for b in boxes), min(b[1] for b in boxes), max(b[2] for b in boxes), max(b[3] for b in boxes)]
+
+
+def shrink_line(ctx, exe, line, kind, text, budget=250):
+    """Greedy minimisation: drop rectangles of multi-rectangle operands (keeping extents tight), then
+    compress coordinates order-preservingly.  A candidate is kept only if the same kind of failure
+    (model/implementation disagreement, or an oracle failure of the same class) persists."""
+    d = ctx.scratch / "shrink"
+    d.mkdir(exist_ok=True)
+    want_cat = classify(text)[1] if kind.startswith("oracle") else None
+    calls = [0]
+
+    def fails(cand):
+        calls[0] += 1
+        if calls[0] > budget:
+            return False
+        (d / "o.txt").write_text(cand + "\n")
+        subprocess.run([str(exe), "exec", str(d / "o.txt"), str(d / "i.txt"), str(d / "c.txt")], stderr=subprocess.DEVNULL)
+        ctx.pixdrv("region", d / "o.txt", d / "m.txt")
+        a, m = (d / "i.txt").read_text().strip(), (d / "m.txt").read_text().strip()
+        if "bad-op" in a or "bad-op" in m:
+            return False
+        if want_cat is None:
+            return a != m
+        for ol in (d / "c.txt").read_text().splitlines():
+            mm = re.match(r"ORACLE (\d+) (.*)", ol.strip())
+            if mm and classify(mm.group(2))[1] == want_cat:
+                return True
+        return False
+
+    if not fails(line):
+        return line     # not reproducible in isolation (history-dependent): keep as is
+    segs = _parse(line)
+    changed = True
+    while changed and calls[0] <= budget:
+        changed = False
+        for s in segs:
+            if s[0] != "r" or s[1] != "H":
+                continue
+            k = 0
+            while k < len(s[3]) and len(s[3]) > 1:
+                cand_boxes = s[3][:k] + s[3][k + 1:]
+                old = (s[1], s[2], s[3])
+                if len(cand_boxes) == 1:
+                    s[1], s[2], s[3] = "S", list(cand_boxes[0]), []
+                else:
+                    s[2], s[3] = _bbox(cand_boxes), cand_boxes
+                if fails(_fmt(segs)):
+                    changed = True
+                    if s[1] == "S":
+                        break
+                else:
+                    s[1], s[2], s[3] = old
+                    k += 1
+    # order-preserving coordinate compression (only for requests whose numbers are all coordinates)
+    op = segs[0][1] if segs and segs[0][0] == "t" else ""
+    if op in ("union", "intersect", "subtract", "inverse", "equal", "contains_point", "contains_rect", "copy"):
+        vals = set()
+        for s in segs:
+            if s[0] == "r":
+                vals.update(s[2]); [vals.update(b) for b in s[3]]
+        tail = []
+        for idx, s in enumerate(segs):
+            if s[0] == "t" and idx >= 3 and re.fullmatch(r"-?\d+", s[1]) and any(x[0] == "r" for x in segs[:idx]):
+                tail.append(idx); vals.add(int(s[1]))
+        if vals and max(abs(v) for v in vals) < 2 ** 14:
+            rank = {v: i for i, v in enumerate(sorted(vals))}
+            cand = [list(s) for s in segs]
+            for s in cand:
+                if s[0] == "r":
+                    s[2] = [rank[v] for v in s[2]]
+                    s[3] = [[rank[v] for v in b] for b in s[3]]
+            for idx in tail:
+                cand[idx][1] = str(rank[int(cand[idx][1])])
+            if fails(_fmt(cand)):
+                segs = cand
+    return _fmt(segs)
+
+
 def report(ctx, findings, limit=6):
     """Turns findings into VIOLATION / KNOWN-FINDING lines (grouped by signature)."""
     seen = collections.OrderedDict()
@@ -131,7 +240,14 @@ def report(ctx, findings, limit=6):
         kind, op, line, a, m, text = min(items, key=lambda it: len(it[2]))
         if n >= limit:
             break
-        if ctx.violation({"kind": kind, "request": line, "implementation": a, "model": m, "oracle": text,
+        exe = ctx.scratch / "region-plain"
+        small = line
+        if exe.exists() and op not in ("from_image", "init_rects", "init_rect", "init_with_extents", "to16", "to32", "clear", "reset"):
+            try:
+                small = shrink_line(ctx, exe, line, kind, text)
+            except Exception as e:      # shrinking is best effort
+                small = line
+        if ctx.violation({"kind": kind, "request": small, "request_as_generated": line, "implementation": a, "model": m, "oracle": text,
                           "how_to_replay": "printf '%s\\n' \"<request>\" > ops.txt; harness/region exec ops.txt impl.txt; "
                                            "lean/.lake/build/bin/pixdrv region < ops.txt",
                           "count_in_run": len(items)}, signature=sig, what=f"{op}: {text}", tag=op):
